@@ -139,6 +139,9 @@ func (sv *Solver) runCtx(parent context.Context, name, query string, timeout int
 	query = strings.ReplaceAll(query, "@fn:ctabf_", "ctaba_")
 	if name == "cvc5" {
 		query = strings.Replace(query, "(set-option :produce-models true)\n", "", 1)
+		if strings.Contains(query, "(lambda ((i ") {
+			query = delambda(query)
+		}
 	}
 	cmd.Stdin = strings.NewReader(query)
 	var ob bytes.Buffer
@@ -322,11 +325,32 @@ func (sv *Solver) solveAll(c *Ctx, obls []Obl, timeout int, wantModel bool) []Ob
 		go func() {
 			defer wg.Done()
 			defer func() { <-sv.sem }()
-			out[i] = sv.solveOne(c, o, timeout, wantModel)
+			out[i] = sv.solveOne(c, o, timeout, wantModel && len(o.Parts) == 0)
 		}()
 	}
 	wg.Wait()
-	return out
+	// grouped obligations that were not discharged at once: decide their parts one by one (names the failing component;
+	// if every part is discharged the conjunction is, too)
+	var flat []OblResult
+	for i, r := range out {
+		if len(obls[i].Parts) == 0 || r.Status == "unsat" {
+			flat = append(flat, r)
+			continue
+		}
+		prs := sv.solveAll(c, obls[i].Parts, timeout, wantModel)
+		allOK := true
+		for _, pr := range prs {
+			if pr.Status != "unsat" {
+				allOK = false
+				flat = append(flat, pr)
+			}
+		}
+		if allOK {
+			r.Status, r.Solver, r.Output = "unsat", "parts", "every conjunct discharged individually"
+			flat = append(flat, r)
+		}
+	}
+	return flat
 }
 
 // checkSat asks whether a set of assumptions is satisfiable (vacuity guards).
@@ -351,4 +375,35 @@ func (sv *Solver) checkSat(c *Ctx, ndecl, nasm int, extra string, timeout int) s
 		}
 	}
 	return st
+}
+
+// delambda rewrites `(define-fun X () (Array I E) (lambda ((i I)) BODY))` (z3 syntax for constant tables) into a declared
+// array constant with the pointwise axiom, which cvc5 accepts.
+func delambda(q string) string {
+	lines := strings.Split(q, "\n")
+	for k, l := range lines {
+		if !strings.HasPrefix(l, "(define-fun ") {
+			continue
+		}
+		li := strings.Index(l, " (lambda ((i ")
+		if li < 0 {
+			continue
+		}
+		head := l[len("(define-fun "):li] // NAME () SORT
+		sp := strings.Index(head, " () ")
+		if sp < 0 {
+			continue
+		}
+		name, srt := head[:sp], head[sp+4:]
+		rest := l[li+len(" (lambda ((i "):]
+		// rest = INDEXSORT)) BODY))
+		ci := strings.Index(rest, ")) ")
+		if ci < 0 || !strings.HasSuffix(rest, "))") {
+			continue
+		}
+		isort := rest[:ci]
+		body := rest[ci+3 : len(rest)-2]
+		lines[k] = fmt.Sprintf("(declare-const %s %s)\n(assert (forall ((i %s)) (= (select %s i) %s)))", name, srt, isort, name, body)
+	}
+	return strings.Join(lines, "\n")
 }
